@@ -11,8 +11,8 @@ from common import Infra, log, marker_json, run_tlc, seed
 
 
 def run_hstress(scratch, testbin, tier, prop):
-    rounds = 6000 if tier == "quick" else 60000
-    procs = 4 if tier == "quick" else 12
+    rounds = 6000 if tier == "quick" else 30000
+    procs = 4 if tier == "quick" else 8
     out = dict(violations=[], rounds=rounds * procs)
 
     def one(i):
